@@ -87,7 +87,10 @@ def _nu_calls(rng):
     xs = points_in(rng, b, 5)
     out = [("nu", "nu_find_span", [t, p, x], []),
            ("nu", "nu_eval_spline_1d_scalar", [x, t, p, c, der], []),
-           ("nu", "nu_eval_spline_1d_vector", [xs, t, p, c, np.zeros(5), der], [4])]
+           ("nu", "nu_eval_spline_1d_vector", [xs, t, p, c, np.zeros(5), der], [4]),
+           # first point = last point, a repeated point, unsorted, into a buffer that is not zero
+           ("nu", "nu_eval_spline_1d_vector", [np.concatenate([xs[::-1], xs[3:4], xs[-1:]]), t, p, c, np.full(7, -7.25), der], [4]),
+           ("nu", "nu_eval_spline_1d_vector", [xs[:1].copy(), t, p, c, np.full(1, -7.25), 0], [4])]
     # span from the reference definition (right-continuous, last cell closed)
     span = int(np.clip(np.searchsorted(t, x, side="right") - 1, p, len(t) - p - 2))
     out.append(("nu", "nu_basis_funs", [t, p, x, span, np.zeros(p + 1)], [4]))
@@ -101,6 +104,11 @@ def _nu_calls(rng):
     out.append(("nu", "nu_eval_spline_2d_scalar", [x, y, t, p, t2, p2, C, d1, d2], []))
     out.append(("nu", "nu_eval_spline_2d_cross", [X, Y, t, p, t2, p2, C, np.zeros((3, 4)), d1, d2], [7]))
     out.append(("nu", "nu_eval_spline_2d_vector", [X, Y[:3].copy(), t, p, t2, p2, C, np.zeros(3), d1, d2], [7]))
+    # a closed contour (first point = last point), repeated points and a single point, into a buffer that is not zero
+    Xc, Yc = np.concatenate([X, X[1:2], X[:1]]), np.concatenate([Y[:3], Y[1:2], Y[:1]])
+    for dd1, dd2 in ((0, 0), (d1, d2)):
+        out.append(("nu", "nu_eval_spline_2d_vector", [Xc.copy(), Yc.copy(), t, p, t2, p2, C, np.full(5, -7.25), dd1, dd2], [7]))
+    out.append(("nu", "nu_eval_spline_2d_vector", [X[:1].copy(), Y[:1].copy(), t, p, t2, p2, C, np.full(1, -7.25), 0, 0], [7]))
     return out
 
 
@@ -115,7 +123,9 @@ def _cu_calls(rng):
            ("cu", "cu_basis_funs", [3, off, np.zeros(4)], [2]),
            ("cu", "cu_basis_funs_1st_der", [3, off, float(k[2]), np.zeros(4)], [3]),
            ("cu", "cu_eval_spline_1d_scalar", [x, k, 3, c, der], []),
-           ("cu", "cu_eval_spline_1d_vector", [xs, k, 3, c, np.zeros(5), der], [4])]
+           ("cu", "cu_eval_spline_1d_vector", [xs, k, 3, c, np.zeros(5), der], [4]),
+           ("cu", "cu_eval_spline_1d_vector", [np.concatenate([xs[::-1], xs[3:4], xs[-1:]]), k, 3, c, np.full(7, -7.25), der], [4]),
+           ("cu", "cu_eval_spline_1d_vector", [xs[:1].copy(), k, 3, c, np.full(1, -7.25), 0], [4])]
     k2, b2, nc2 = cu_knots(rng)
     C = np.ascontiguousarray(rng.standard_normal((nc + 3, nc2 + 3)))
     d1, d2 = int(rng.integers(0, 2)), int(rng.integers(0, 2))
@@ -124,6 +134,10 @@ def _cu_calls(rng):
     out.append(("cu", "cu_eval_spline_2d_scalar", [x, y, k, 3, k2, 3, C, d1, d2], []))
     out.append(("cu", "cu_eval_spline_2d_cross", [X, Y, k, 3, k2, 3, C, np.zeros((3, 4)), d1, d2], [7]))
     out.append(("cu", "cu_eval_spline_2d_vector", [X, Y[:3].copy(), k, 3, k2, 3, C, np.zeros(3), d1, d2], [7]))
+    Xc, Yc = np.concatenate([X, X[1:2], X[:1]]), np.concatenate([Y[:3], Y[1:2], Y[:1]])
+    for dd1, dd2 in ((0, 0), (d1, d2)):
+        out.append(("cu", "cu_eval_spline_2d_vector", [Xc.copy(), Yc.copy(), k, 3, k2, 3, C, np.full(5, -7.25), dd1, dd2], [7]))
+    out.append(("cu", "cu_eval_spline_2d_vector", [X[:1].copy(), Y[:1].copy(), k, 3, k2, 3, C, np.full(1, -7.25), 0, 0], [7]))
     return out
 
 
